@@ -618,7 +618,7 @@ def part_teb(ctx: Ctx, model_usable: bool):
             ctx.violation(key, what, replay)
 
     # ---------------- synthetic graphs
-    n_syn = 250 if ctx.quick else 2500
+    n_syn = 250 if ctx.quick else 1500
     scalar_reset = 0
     for c in range(n_syn):
         g, num_e = synth_graph(rng, zx, VertexType)
@@ -670,8 +670,8 @@ def part_teb(ctx: Ctx, model_usable: bool):
         captured.append((before_g, num_e, copy.deepcopy(res[0]), res[1], res[0] is g))
         return res
 
-    n_circ = 80 if ctx.quick else 600
-    exh_cap = 8 if ctx.quick else 11
+    n_circ = 80 if ctx.quick else 400
+    exh_cap = 8 if ctx.quick else 10
     n_circ_exh = 0
     n_multi = 0
     G.transform_error_basis = wrapper
@@ -784,8 +784,13 @@ def run(ctx: Ctx) -> int:
     except Exception as e:  # noqa
         ctx.violation("import-failure", f"tsim cannot be imported: {e!r}", {"error": repr(e)}, no_failing_input=True)
         return ctx.finish("n/a")
+    import time
+    t0 = time.time()
     part_find_basis(ctx, model_usable)
+    ctx.log(f"find_basis part: {time.time() - t0:.1f}s")
+    t0 = time.time()
     part_teb(ctx, model_usable)
+    ctx.log(f"transform_error_basis part: {time.time() - t0:.1f}s")
     if ctx.broken and not ctx.violations:
         report_broken_without_input(ctx)
     return ctx.finish(
